@@ -263,6 +263,32 @@ func (c *VCtx) callbackCall(fr *Frame, st *State, cc *ssa.CallCommon, f *Term, a
 	v := c.freshVal("cb", rt)
 	c.knownAll(st, v)
 	c.recordRet(st, f, v)
+	if fr.contract != nil {
+		// ghost statements at the return of the callback: ret0, ret1 are its results
+		extra := map[string]Val{}
+		if tup, ok := v.(Tuple); ok {
+			for i, r := range tup {
+				extra[fmt.Sprintf("ret%d", i)] = r
+			}
+		} else {
+			extra["ret0"] = v
+		}
+		pt := fmt.Sprintf("callbackret %d", fr.callbacks)
+		hasGhost := false
+		for _, g := range fr.contract.Ghost {
+			if g.At == pt {
+				hasGhost = true
+			}
+		}
+		if hasGhost {
+			before := st.clone()
+			c.runGhost(fr, st, fr.contract, pt, extra)
+			if len(st.held) == 0 && len(c.globalClauses()) > 0 {
+				// recording the outcome is a (ghost) action of its own
+				c.assertGlobal(st, before, strings.ReplaceAll(pt, " ", ""))
+			}
+		}
+	}
 	return v
 }
 
@@ -292,9 +318,22 @@ func (c *VCtx) spawn(fr *Frame, st *State, cc *ssa.CallCommon, fv *FnVal, args [
 	for _, a := range args {
 		c.publish(a)
 	}
+	// the identity of the new goroutine ("child" in ghost statements at this point; "me" in its own contract)
+	child := c.fresh("child", SRef)
+	c.fact(And(Not(Eq(child, Null)), Not(Select(c.allocHeap(st), child))))
+	if c.me != nil {
+		c.fact(Not(Eq(child, c.me)))
+	}
+	for _, g := range c.ghostMaps() {
+		if g.kind == "owned" {
+			ks, _ := arrParts(g.sort)
+			h := c.heap(st, g.heap, g.sort)
+			c.fact(T(SBool, fmt.Sprintf("(forall ((k %s)) (! (not (= (select %s k) %s)) :pattern ((select %s k))))", ks, h.S, child.S, h.S)))
+		}
+	}
 	if fr.contract != nil {
 		fr.gos++
-		c.runGhost(fr, st, fr.contract, fmt.Sprintf("go %d", fr.gos), nil)
+		c.runGhost(fr, st, fr.contract, fmt.Sprintf("go %d", fr.gos), map[string]Val{"child": child})
 		if fr.contract.Asserts != nil {
 			c.pointAsserts(fr, st, fmt.Sprintf("go %d", fr.gos), cc.Pos())
 		}
@@ -311,6 +350,7 @@ func (c *VCtx) spawn(fr *Frame, st *State, cc *ssa.CallCommon, fv *FnVal, args [
 		return
 	}
 	sc := c.contractScope(fv.Fn, ct, fv, args, st, st, nil)
+	sc.vars["me"] = child
 	for i, r := range ct.Requires {
 		g := c.translateBool(sc, r.E)
 		c.prove(fmt.Sprintf("go.requires.%s.%s", FuncKey(fv.Fn), clauseLabel(r, i)), "precondition of spawned "+FuncKey(fv.Fn)+": "+r.Src, st.pc, g, nil)
@@ -431,6 +471,11 @@ func (c *VCtx) applyContract(fr *Frame, st *State, cc *ssa.CallCommon, ct *FuncC
 		c.knownAll(st, res)
 	}
 	c.lastCallFacts(st, pre, args)
+	if ct.Opts["frame"] == "skip" && c.top != nil {
+		// what survives a call whose frame is not verified: the callee (running as this invocation) and
+		// everybody else respect the ghost-map disciplines and the package guarantees
+		c.afterOpaqueCall(st, pre, ct.Opts["holds"] != "")
+	}
 	sc2 := c.contractScope(callee, ct, fv, args, st, pre, res)
 	for _, e := range ct.Ensures {
 		// postconditions that talk about the callee's local variables are meaningful only inside the callee
@@ -985,4 +1030,31 @@ func (c *VCtx) isGhostFieldHeap(h string) bool {
 		}
 	}
 	return false
+}
+
+// afterOpaqueCall relates the state after a frame-skip call to the state before it: set-once ghost entries keep
+// their value, alloc only grows, the two-state guarantees hold for the step, and (outside critical sections)
+// the global invariants hold again.
+func (c *VCtx) afterOpaqueCall(st, pre *State, worksUnderCallerLock bool) {
+	for _, g := range c.ghostMaps() {
+		if g.kind != "once" {
+			continue
+		}
+		old := c.heap(pre, g.heap, g.sort)
+		nw := c.heap(st, g.heap, g.sort)
+		if old.S == nw.S {
+			continue
+		}
+		ks, _ := arrParts(g.sort)
+		c.linkFact(T(SBool, fmt.Sprintf("(forall ((k %s)) (! (=> (not (= (select %s k) %s)) (= (select %s k) (select %s k))) :pattern ((select %s k)) :pattern ((select %s k))))", ks, old.S, g.zero, nw.S, old.S, nw.S, old.S)))
+	}
+	if len(st.held) == 0 {
+		c.assumeGlobal(st, pre)
+	} else if !worksUnderCallerLock {
+		for _, g := range c.globalClauses() {
+			if g.trans {
+				c.factG(st.pc, c.translateBool(c.globalScope(g.pkg, st, pre), g.cl.E))
+			}
+		}
+	}
 }
